@@ -94,7 +94,7 @@ fn check_step(p: &GhostProvider, i: usize, n: usize, inp: &PskSecretInput, prev:
 
 #[kani::proof]
 #[kani::stub(zeroize::optimization_barrier, noop_barrier)]
-#[kani::unwind(50)]
+#[kani::unwind(12)]
 fn c13_psk_secret_0() {
     let p = GhostProvider::new();
     let r = PskSecret::calculate(&[], &p);
@@ -109,7 +109,7 @@ fn c13_psk_secret_0() {
 
 #[kani::proof]
 #[kani::stub(zeroize::optimization_barrier, noop_barrier)]
-#[kani::unwind(50)]
+#[kani::unwind(12)]
 fn c13_psk_secret_1_bounded_2() {
     let p = GhostProvider::new();
     let a = any_input();
@@ -126,7 +126,7 @@ fn c13_psk_secret_1_bounded_2() {
 
 #[kani::proof]
 #[kani::stub(zeroize::optimization_barrier, noop_barrier)]
-#[kani::unwind(50)]
+#[kani::unwind(12)]
 fn c13_psk_secret_2_bounded_2() {
     let p = GhostProvider::new();
     let a = any_input();
@@ -148,7 +148,7 @@ fn c13_psk_secret_2_bounded_2() {
 // a provider failure at any step is reported as CryptoProviderError and stops the chain
 #[kani::proof]
 #[kani::stub(zeroize::optimization_barrier, noop_barrier)]
-#[kani::unwind(50)]
+#[kani::unwind(12)]
 fn c13_psk_secret_provider_error_bounded_2() {
     let at: usize = kani::any();
     kani::assume(at < 6);
@@ -162,28 +162,12 @@ fn c13_psk_secret_provider_error_bounded_2() {
 }
 
 // ------------------------------------------------------------------ C18
-fn same_trace(p: &GhostProvider, q: &GhostProvider) -> bool {
-    let n = p.calls();
-    if q.calls() != n {
-        return false;
-    }
-    let t = q.trace.borrow();
-    let mut i = 0;
-    while i < n {
-        if !p.is(i, t[i].op, &t[i].a, &t[i].b, t[i].len) {
-            return false;
-        }
-        i += 1;
-    }
-    true
-}
-
 // Order: the KDF inputs of [A, B] and of [B, A] coincide only if A and B are the same PSK
 // (same id, nonce and value).  In the ghost model distinct inputs are distinct terms, so
 // swapping two different PSKs changes psk_secret and with it every secret of the epoch.
 #[kani::proof]
 #[kani::stub(zeroize::optimization_barrier, noop_barrier)]
-#[kani::unwind(50)]
+#[kani::unwind(12)]
 fn c18_psk_order_bounded_2() {
     let a = any_input();
     let b = any_input();
@@ -192,7 +176,7 @@ fn c18_psk_order_bounded_2() {
     let r1 = PskSecret::calculate(&[a.clone(), b.clone()], &p);
     let r2 = PskSecret::calculate(&[b.clone(), a.clone()], &q);
     assert!(r1.is_ok() && r2.is_ok());
-    let same = same_trace(&p, &q);
+    let same = p.same_trace(&q);
     kani::cover!(same);
     kani::cover!(!same);
     if same {
@@ -206,7 +190,7 @@ fn c18_psk_order_bounded_2() {
 // epoch, nonce), index and count.
 #[kani::proof]
 #[kani::stub(zeroize::optimization_barrier, noop_barrier)]
-#[kani::unwind(50)]
+#[kani::unwind(12)]
 fn c18_psk_label_injective_bounded_2() {
     let (ia, ib) = (any_id(), any_id());
     let (xa, xb): (u16, u16) = (kani::any(), kani::any());
